@@ -10,7 +10,7 @@
    The statements hold for every logarithm / power function [lg], [ex] plugged into the model. *)
 From Coq Require Import ZArith List Bool Lia Reals.
 Import ListNotations.
-From Osmo Require Import Base.DecModel Gen.C10_consts C10.Model C10.LogExp C10.Spec C10.ProofsSum C10.ProofsList C10.ProofsChain C10.ProofsTwap C10.ProofsLog C10.ProofsAnswer C10.ProofsFull C10.Lift C10.Corr C10.CorrLink C10.GeomBound C10.GeomReal C10.GeomMean C10.BridgeC13.
+From Osmo Require Import Base.DecModel Gen.C10_consts C10.Model C10.LogExp C10.Spec C10.ProofsSum C10.ProofsList C10.ProofsChain C10.ProofsTwap C10.ProofsLog C10.ProofsAnswer C10.ProofsFlag C10.ProofsFull C10.Lift C10.Corr C10.CorrLink C10.GeomBound C10.GeomReal C10.GeomMean C10.BridgeC13.
 Open Scope Z_scope.
 
 (* arithmetic TWAP = the code's rounding (truncating division) of  sum p_i * dt_i / (end - start), for every history,
@@ -57,6 +57,18 @@ Theorem C10_error_flagged : forall lg ex t0 h0 w0 w1 evs p G now q0 geom start s
   f = true.
 Proof. exact error_flagged. Qed.
 Print Assumptions C10_error_flagged.
+
+(* ... and only then: a flagged answer has a reason among the records G ever stored for the pair - an error record
+   (last error time = its own time, i.e. the pool's spot price errored or was out of range at that block end / at creation)
+   inside [start, stop], an error record or a zero asset-0 price in force at start, or a zero asset-0 price in force at stop *)
+Theorem C10_flag_has_reason : forall lg ex t0 h0 w0 w1 evs p G now q0 geom start stop v,
+  history lg t0 h0 w0 w1 evs p G -> r_time (p_recent p) <= now -> max_keep t0 evs <= start -> zero_time < start ->
+  twap_between lg ex now p q0 geom start stop = QVal true v ->
+  (exists r, In r G /\ r_err r = r_time r /\ start <= r_time r <= stop) \/
+  (exists xs, hist_at_or_before G start = Some xs /\ (r_err xs = r_time xs \/ r_p0 xs = 0)) \/
+  (exists xe, hist_at_or_before G stop = Some xe /\ r_p0 xe = 0).
+Proof. exact flag_has_reason_history. Qed.
+Print Assumptions C10_flag_has_reason.
 
 (* pruning never changes an answer whose interval starts at or after the keep time (any budget, any state whose index is
    sorted - which every reachable state is, see C10_reachable_sorted) *)
